@@ -37,6 +37,7 @@ const (
 	pElem          // array/slice element: Ref (array ref), Idx term, Root elem type, Path
 	pGlobal        // package-level variable (+ path)
 	pBox           // heap cell of non-struct type: Ref, Root type
+	pFieldElem     // element of an array-typed field of a heap struct: Ref, Root struct, Path[0]=field, Idx, Path[1:] inside the element
 )
 
 type Ptr struct {
